@@ -472,7 +472,7 @@ def plan(tier):
 
 def work(shard, seed, tier):
     acc = Acc()
-    n = 500 if tier == "quick" else 3500
+    n = 400 if tier == "quick" else 3000
     steps = 30 if tier == "quick" else 50
 
     def execute(ops):
